@@ -7,7 +7,7 @@
    in MemMapFs.OpenFile; see REPORT-c1718.md).  C18_concurrent_reduces says what follows IF every
    attempt is one atomic step. *)
 From AF Require Import Lib.Bytes Lib.Path Lib.Ops Gen.Consts Model.MemFile Model.MemFs Model.Temp
-  Proofs.PathProof Proofs.MemFsBasics Proofs.MemCreate Proofs.TempProof.
+  Proofs.PathProof Proofs.MemFsBasics Proofs.MemBelow Proofs.MemCreate Proofs.TempProof.
 Local Open Scope Z_scope.
 
 (* ---- names ---- *)
@@ -65,7 +65,7 @@ Print Assumptions C18_direct_child.
    temp_file_op / temp_dir_op on candidate names: a successful create was on a name that did not
    exist, which exists afterwards, and every entry that existed is unchanged; a failed create
    changes nothing.  [good] is a state invariant the filesystem may need (MemMapFs: the directory
-   is a directory). *)
+   exists). *)
 Theorem C18_fresh_and_shaped :
   forall (St V : Type) (step : St -> op -> St * res) (view : St -> str -> option V)
          (is_create : (str -> op) -> Prop) (good : St -> Prop) (cand : str -> Prop),
@@ -110,19 +110,37 @@ Proof.
 Qed.
 Print Assumptions C18_mem_exclusive_existing.
 
-(* ... on a free name whose parent is present: a handle / nil, and exactly that entry is added
+(* ... on a free name whose parent is a directory: a handle / nil, and exactly that entry is added
    ([created]: the path is bound to a fresh node, the parent gains a child, nothing else moves) *)
 Theorem C18_mem_exclusive_fresh : forall s n perm d dn,
   lookup s (normalize_path n) = None ->
-  lookup s (parent_key (normalize_path n)) = Some d -> get_node s d = Some dn ->
+  lookup s (parent_key (normalize_path n)) = Some d -> get_node s d = Some dn -> ndir dn = true ->
   (exists s1, m_step s (OpenFile n temp_flags perm) = (s1, RHandle (length (mhandles s))) /\
               created s s1 (normalize_path n) d dn) /\
   (exists s1, m_step s (Mkdir n perm) = (s1, ROk) /\ created s s1 (normalize_path n) d dn).
 Proof. intros. split; [now apply excl_open_fresh | now apply mkdir_fresh]. Qed.
 Print Assumptions C18_mem_exclusive_fresh.
 
+(* ... on a free name whose parent is a REGULAR FILE: ENOTDIR, and the path map and every node are
+   what they were (MemMapFs's ancestor check, Gen/Consts.v memfs_refuses_below_file = 1 regenerated
+   from memmap.go; without it the entry was created and the regular file became a directory) *)
+Theorem C18_mem_exclusive_below_file : forall s n perm d dn,
+  lookup s (normalize_path n) = None ->
+  lookup s (parent_key (normalize_path n)) = Some d -> get_node s d = Some dn -> ndir dn = false ->
+  (snd (m_step s (OpenFile n temp_flags perm)) = RErr (EW KENOTDIR) /\
+   fs_view (fst (m_step s (OpenFile n temp_flags perm))) = fs_view s) /\
+  (snd (m_step s (Mkdir n perm)) = RErr (EW KENOTDIR) /\
+   fs_view (fst (m_step s (Mkdir n perm))) = fs_view s).
+Proof.
+  intros s n perm d dn H1 H2 H3 H4.
+  rewrite (excl_open_below_file s n perm d dn H1 H2 H3 H4), (mkdir_below_file s n perm d dn H1 H2 H3 H4).
+  now repeat split.
+Qed.
+Print Assumptions C18_mem_exclusive_below_file.
+
 (* TempFile / TempDir on MemMapFs: in every state whose path map points into the heap and where the
-   requested directory is a directory, for every pattern without separators: on success the returned
+   requested directory exists (call_sane: the name is bound to a node — a directory, or a regular
+   file: then the call fails, next theorem), for every pattern without separators: on success the returned
    name did not exist before (Stat failed: C18_absent_is_stat), exists after, every entry that existed
    (kind, bytes, mode, mtime) is unchanged — TempFile never opens or alters an existing file —, the
    name lies directly in clean dir and is prefix ++ nine digits ++ suffix *)
@@ -146,6 +164,22 @@ Theorem C18_fresh_and_shaped_mem_dir : forall ostmp s g dir prefix s' g' name h,
   path_dir name = clean dir1 /\ exists d, is_d9 d /\ snd (path_split name) = prefix ++ d ++ [].
 Proof. exact temp_dir_mem. Qed.
 Print Assumptions C18_fresh_and_shaped_mem_dir.
+
+(* the requested "directory" is a REGULAR FILE (finding temp:altered-existing:parent-is-file before
+   MemMapFs refused to create below a regular file): no name is handed out, an error is returned, and
+   the path map and every node — that regular file included — are exactly what they were *)
+Theorem C18_dir_is_regular_file_mem : forall ostmp s g dir pattern s' g' x,
+  let dir1 := eff_dir ostmp dir in
+  let prefix := fst (temp_prefix_suffix pattern) in let suffix := snd (temp_prefix_suffix pattern) in
+  dir1 <> [] -> slash_free prefix -> slash_free suffix -> is_file_node s (normalize_path dir1) ->
+  (temp_file m_step ostmp s g dir pattern = (s', g', x) -> fs_view s' = fs_view s /\ exists e, x = TempErr e) /\
+  (slash_free pattern -> temp_dir m_step ostmp s g dir pattern = (s', g', x) -> fs_view s' = fs_view s /\ exists e, x = TempErr e).
+Proof.
+  intros ostmp s g dir pattern s' g' x dir1 prefix suffix Hne Hp Hs Hf. split.
+  - now apply temp_file_dir_is_file.
+  - intros Hpat. now apply temp_dir_dir_is_file.
+Qed.
+Print Assumptions C18_dir_is_regular_file_mem.
 
 Theorem C18_absent_is_stat : forall s p, mview s p = None <-> snd (m_step s (Stat p)) = RErr (EW KNotExist).
 Proof. exact mview_none_stat. Qed.
@@ -257,6 +291,19 @@ Proof.
   - intros [].
   - exists 0%nat. eexists. vm_compute. repeat split.
 Qed.
+
+(* corpus/C18 kf3: /w/iam is a regular file holding "x"; TempFile(fs, "/w/iam", "t*") fails with
+   ENOTDIR and /w/iam is still that regular file *)
+Example C18_ex_dir_is_file :
+  let iam := [47; 119; 47; 105; 97; 109]%N in
+  let '(s0, _) := m_step m_init (Mkdir [47; 119]%N 493) in
+  let '(s1, _) := m_step s0 (Create iam) in
+  let '(s2, _) := m_step s1 (HWrite 0 [120]%N) in
+  is_file_node s2 (normalize_path iam) /\
+  let '(s3, _, x) := temp_file m_step [47; 116; 109; 112]%N s2 (mkTG 1 [] 0) iam [116; 42]%N in
+  (x, mview s3 iam, mview s3 (iam ++ [47; 116; 48; 49; 53; 53; 54; 56; 55; 52; 56])%N) =
+  (TempErr (EW KENOTDIR), Some (false, [120]%N, mode_temporary, (BIG + 2)%Z), None).
+Proof. vm_compute. split; [|reflexivity]. exists 2%nat. eexists. repeat split. Qed.
 
 (* two concurrent callers, an arbitrary schedule: both succeed with different names *)
 Example C18_ex_interleaving :
